@@ -386,6 +386,7 @@ pub fn main(args: &[String]) -> i32 {
         "dfs" => dfs_main(&o),
         "storm" => storm_main(&o),
         "limitstorm" => limitstorm_main(&o),
+        "scanstorm" => scanstorm_main(&o),
         _ => free_main(&o),
     }
 }
@@ -639,6 +640,61 @@ fn limitstorm_main(o: &Opts) -> i32 {
     0
 }
 
+/// C20 (run by the AddressSanitizer build) and C14: scans over keys that writers keep replacing, with
+/// random multi-millisecond stalls at the scheduling points (a scanner preempted between loading an
+/// index slot and using the record).  Every value carries its key: a scan must never return key A with
+/// key B's bytes.  Unrecorded; the result line says how many scans, updates and foreign values.
+fn scanstorm_main(o: &Opts) -> i32 {
+    use std::sync::atomic::{AtomicBool, AtomicU64, Ordering};
+    let seed: u64 = o.num("seed", 1);
+    let millis: u64 = o.num("millis", 1500);
+    let nkeys: usize = o.num("keys", 16);
+    let (nw, ns): (usize, usize) = (o.num("writers", 3), o.num("scanners", 5));
+    crate::util::watchdog::start(o.num("watchdog", 60));
+    let store = Arc::new(FeoxStore::builder().hash_bits(4).enable_ttl(false).no_memory_limit().build().expect("store"));
+    let keys: Vec<Vec<u8>> = (0..nkeys).map(|i| format!("scan-key-{i:04}").into_bytes()).collect();
+    for k in &keys { store.insert(k, &[k.as_slice(), b"|0"].concat()).unwrap(); }
+    feoxdb::verif::sched::set_random_stall(o.num("stallmask", 63), o.num("stallus", 3000));
+    feoxdb::verif::sched::set_random_yield(0, seed | 1);
+    let stop = Arc::new(AtomicBool::new(false));
+    let (scans, updates, foreign) = (Arc::new(AtomicU64::new(0)), Arc::new(AtomicU64::new(0)), Arc::new(AtomicU64::new(0)));
+    let mut hs = Vec::new();
+    for w in 0..nw {
+        let (st, sp, ks, up) = (store.clone(), stop.clone(), keys.clone(), updates.clone());
+        hs.push(std::thread::spawn(move || {
+            let mut n = w as u64;
+            while !sp.load(Ordering::Relaxed) {
+                let k = &ks[(n as usize * 7 + w) % ks.len()];
+                let _ = st.insert(k, &[k.as_slice(), format!("|{n}").as_bytes()].concat());
+                n += 1;
+                up.fetch_add(1, Ordering::Relaxed);
+            }
+        }));
+    }
+    for _ in 0..ns {
+        let (st, sp, sc, fo) = (store.clone(), stop.clone(), scans.clone(), foreign.clone());
+        hs.push(std::thread::spawn(move || {
+            while !sp.load(Ordering::Relaxed) {
+                if let Ok(items) = st.range_query(b"scan-key-", b"scan-key-~", 1000) {
+                    for (k, v) in items { if !v.starts_with(&k) { fo.fetch_add(1, Ordering::Relaxed); } }
+                }
+                sc.fetch_add(1, Ordering::Relaxed);
+            }
+        }));
+    }
+    let t0 = std::time::Instant::now();
+    while t0.elapsed() < Duration::from_millis(millis) {
+        std::thread::sleep(Duration::from_millis(50));
+        crate::util::watchdog::beat("scanstorm");
+    }
+    stop.store(true, Ordering::SeqCst);
+    for h in hs { let _ = h.join(); }
+    feoxdb::verif::sched::set_random_stall(0, 0);
+    if let Some(out) = o.get("out") { let _ = std::fs::write(out, ""); }
+    println!("{}", json!({"rounds": 1, "scans": scans.load(Ordering::SeqCst), "updates": updates.load(Ordering::SeqCst), "foreign": foreign.load(Ordering::SeqCst)}));
+    if foreign.load(Ordering::SeqCst) > 0 { 4 } else { 0 }
+}
+
 /// C18: several flush() callers run concurrently with a writer whose record batches fail
 /// transiently (three failing attempts, then the device is healthy again: the failed batch is
 /// scrubbed and released by the worker while the callers are in every phase of flush).  Only
@@ -656,6 +712,21 @@ fn storm_main(o: &Opts) -> i32 {
     let cfg = json!({"pers": true, "ttl": true, "cache": o.num("cache", 0u32) == 1, "lim": -1, "blocks": o.num("blocks", 200u64)});
     feoxdb::verif::force_sync(true);
     let store = Arc::new(build_store(&cfg, &path));
+    let fsize = o.num("fsize", 0u32) == 1;
+    let mut old_limit = libc::rlimit { rlim_cur: 0, rlim_max: 0 };
+    if fsize {
+        // a device whose data area cannot be written any more (EFBIG from the kernel, delivered as error
+        // completions on the io_uring path): metadata and journal blocks stay writable
+        feoxdb::verif::force_sync(false);
+        let _ = store.insert(b"before", b"limit");
+        let _ = store.flush();
+        unsafe {
+            libc::signal(libc::SIGXFSZ, libc::SIG_IGN);
+            libc::getrlimit(libc::RLIMIT_FSIZE, &mut old_limit);
+            let lim = libc::rlimit { rlim_cur: 16 * 4096, rlim_max: old_limit.rlim_max };
+            libc::setrlimit(libc::RLIMIT_FSIZE, &lim);
+        }
+    }
     static ARMED: AtomicI64 = AtomicI64::new(0);
     feoxdb::verif::set_fault_fn(Some(Box::new(move |_idx, kind, sector, _len| {
         if kind == "write" && sector >= 16 && ARMED.load(Ordering::SeqCst) > 0 && ARMED.fetch_sub(1, Ordering::SeqCst) > 0 { 1 } else { 0 }
@@ -688,6 +759,18 @@ fn storm_main(o: &Opts) -> i32 {
     for h in hs { calls += h.join().unwrap_or(0); }
     crate::util::watchdog::beat("storm final flush");
     let _ = store.flush();
+    if fsize {
+        crate::util::watchdog::beat("storm drop (unwritable data area)");
+        match Arc::try_unwrap(store) { Ok(s) => drop(s), Err(_) => {} }
+        unsafe { libc::setrlimit(libc::RLIMIT_FSIZE, &old_limit); }
+        feoxdb::verif::set_fault_fn(None);
+        obs::uninstall();
+        let _ = obs::take();
+        let _ = std::fs::remove_file(&path);
+        if let Some(out) = o.get("out") { let _ = std::fs::write(out, ""); }
+        println!("{}", json!({"rounds": rounds, "flush_err": failed, "flush_ok": okf, "fsize": true}));
+        return 0;
+    }
     feoxdb::verif::set_fault_fn(None);
     obs::uninstall();
     let raw = obs::take();
